@@ -7,6 +7,7 @@
 // stdin:  RUN <ref.so> <backend.so> <direct|launcher> <nkernels> <n> <team> <seed> <first> <dataseed> <trace> <nswitch>
 //         S <region> <tid> <step> <target>
 // stdout: REF <hex>  OUT <hex>  STEPS <launch> <region> <tid> <n> ...  FIRED <k>  LAUNCHES <l> BLOCKS <b>
+#include <sys/resource.h>
 #include <cstdio>
 #include <cstdlib>
 #include <cstring>
@@ -90,6 +91,9 @@ int main(int argc, char **argv) {
     fflush(stdout);
     pid_t pid = fork();
     if (pid == 0) {
+      // a run takes well under a second: sixty seconds of CPU time mean it does not terminate (SIGXCPU -> "hang")
+      struct rlimit rl; rl.rlim_cur = 60; rl.rlim_max = 62;
+      setrlimit(RLIMIT_CPU, &rl);
       sim::setChecking(true);
       sim::resetEntropy();
       Data a = makeData(dataseed), b = makeData(dataseed);
